@@ -357,6 +357,9 @@ EXPORT char *_strtok_s_chk(char *restrict dest, rsize_t *restrict dmaxp,
         dlen--;
     }
 
+    /* the last token ends at the terminator: resume there, so that the
+       next call finds no further token */
+    *ptr = dest;
     *dmaxp = dlen;
     return (ptoken);
 }
